@@ -130,6 +130,10 @@ func (m *Mutex) Unlock() {
 	if !m.locked {
 		panic("sync: unlock of unlocked mutex")
 	}
+	vsched.Point(vsched.KHeld, "", nil)
+	if !m.locked {
+		panic("sync: unlock of unlocked mutex")
+	}
 	m.locked = false
 	vsched.Hold(-1)
 	vsched.Point(vsched.KUnlock, "", nil)
